@@ -276,6 +276,48 @@ def live_torch_bugs(run):
     return live
 
 
+def recheck_fresh(shape, kind, ops, backend, expect_eager=None):
+    """re-run one program (eager and compiled) in a fresh interpreter: dynamo keeps process-wide state that
+    `torch._dynamo.reset()` does not clear (after ~100 compilations in one process torch 2.14 occasionally fails
+    with internal assertions such as `sources must not be empty for symbol s9`); a difference counts only if it is
+    still there in a clean process, which also makes every reported failing program reproducible on its own.
+    Returns (agree, error signature of the compiled run)."""
+    import json
+    import os
+    import subprocess
+    import sys
+    code = (
+        "import sys, json, warnings, logging\n"
+        "warnings.filterwarnings('ignore')\n"
+        "for lg in ('torch._dynamo', 'torch._inductor', 'torch.fx', 'torch._guards'): logging.getLogger(lg).setLevel(logging.CRITICAL)\n"
+        "import c18_programs as P\n"
+        "shape, kind, ops, be = json.loads(sys.argv[1])\n"
+        "e = P.run_eager(tuple(shape), kind, ops)\n"
+        "c = P.run_compiled(tuple(shape), kind, ops, be)\n"
+        "print('RECHECK ' + json.dumps([e == c, P.LAST_COMPILED_ERROR[0][:4000], str(e)[:300], str(c)[:300]]))\n"
+    )
+    # what dynamo traces depends on set iteration order, hence on the interpreter's string hash seed: three fixed
+    # seeds are tried and the first one on which the two runs differ is reported (so the replay is deterministic)
+    seen = None
+    for hashseed in ("0", "1", "2"):
+        try:
+            p = subprocess.run([sys.executable, "-c", code, json.dumps([list(shape), kind, list(ops), backend])],
+                               capture_output=True, text=True, timeout=600,
+                               env={k: v for k, v in dict(os.environ, PYTHONHASHSEED=hashseed).items() if k not in ("LAZY_LEGACY_OP", "CAPTURE_NONTENSOR_STACK")})
+            for line in p.stdout.splitlines():
+                if line.startswith("RECHECK "):
+                    agree, err, e, c = json.loads(line[len("RECHECK "):])
+                    if agree is False:
+                        return False, err + f" [PYTHONHASHSEED={hashseed}]", e, c
+                    if expect_eager is not None and e != str(expect_eager)[:300]:
+                        # the clean process did not even reproduce the eager result: no verdict from it
+                        continue
+                    seen = True
+        except Exception:
+            pass
+    return seen, "", "", ""
+
+
 # fixed programs, always run first: minimised past failures and one witness per round-2 area
 CORPUS = [
     ((3,), "td", ["idx_empty"]), ((2, 3), "td", ["idx_empty", "mul2"]), ((3,), "td", ["idx_neg", "add_td"]), ((2, 3), "td", ["idx_step", "sum0"]),
@@ -304,7 +346,7 @@ def programs(run):
     import c18_ops as O
     rng = run.rng
     backends = ["eager"] if run.tier == "quick" else ["eager", "aot_eager", "inductor"]
-    nprog = 36 if run.tier == "quick" else 220
+    nprog = 30 if run.tier == "quick" else 220
     progs = list(CORPUS)
     if run.tier == "thorough":
         # the open finding C18-consolidate-aot-alias, re-derived on every thorough run (explicit backend)
@@ -338,6 +380,19 @@ def programs(run):
         run.count("prog.backend", be)
         for o in ops:
             run.count("prog.op", o)
+        if e != c:
+            # confirm in a clean process before anything is reported
+            agree, err2, e2, c2 = recheck_fresh(shape, kind, ops, be, expect_eager=e)
+            if agree is True:
+                run.count("prog.differs_only_in_long_process", 1)
+                run.notes.append(f"program {kind}:{ops} [{be}] differed in the long-running process only ({LAST_COMPILED_ERROR[0][:120]!r}); agrees in a fresh process")
+                c = e
+            elif agree is False:
+                # (the difference is confirmed; keep the full in-process values for the comparison below and
+                # take the error text of the clean run when that one raised)
+                if c2 == "err":
+                    LAST_COMPILED_ERROR[0] = err2
+                    c = "err"
         bug = next((b for b in live if e != c and c == "err" and b["match"](LAST_COMPILED_ERROR[0])), None)
         if bug is not None:
             run.count("prog.torch_bug", bug["id"])
